@@ -185,6 +185,9 @@ impl Prop for C08 {
     fn id(&self) -> &'static str {
         "C08"
     }
+    fn fuzz_target(&self) -> Option<&'static str> {
+        Some("fz_choices")
+    }
     fn stream_len(&self, _tier: Tier) -> usize {
         600
     }
